@@ -377,6 +377,37 @@ func (k *bridgeKind) snapshot() tr.M {
 		proofs = []tr.M{}
 	}
 	s["proofs"] = proofs
+	// proof queries during which one read fails (SQLite authorizer): an error or the right proof, never another proof
+	fproofs := []tr.M{}
+	if n := k.ref.Len(); n > 0 && k.opts.ReadFaultQueries > 0 {
+		rng := rand.New(rand.NewSource(k.seed ^ int64(n)*977 ^ int64(len(k.hist))*31))
+		for q := 0; q < k.opts.ReadFaultQueries; q++ {
+			i := rng.Intn(n)
+			p := rng.Intn(i + 1)
+			r, err := k.node.GetExitRootByIndex(ctx, uint32(i))
+			if err != nil {
+				continue
+			}
+			at := 1 + rng.Intn(140)
+			armAuth(k.dbPath(), -1, at)
+			pr, err := k.node.GetProof(ctx, uint32(p), r.Hash)
+			fired, _ := disarmAuth()
+			m := tr.M{"r": i, "p": p, "c": classify(err), "fired": fired, "at": at}
+			if err == nil {
+				sib := [][]any{}
+				for h, hsh := range pr {
+					nm := k.dict.Of(hsh)
+					if nm.T == "z" && nm.H == h {
+						continue
+					}
+					sib = append(sib, []any{h, nm})
+				}
+				m["sib"] = sib
+			}
+			fproofs = append(fproofs, m)
+		}
+	}
+	s["fproofs"] = fproofs
 	// generic battery against the twin (everything else the facade serves: claims, paged listings, token mappings, ...)
 	live, dead := k.hashPools()
 	bt := &battery{deny: bridgeDeny, hashes: live, maxN: last + 1}
